@@ -85,7 +85,15 @@ def _validate(out, part, trace, zv, stats):
                                 "tab": c["tab"][:4], "strs": c["strs"][:6], "verdict": list(v[i])})
     if not bad:
         return
-    todo = bad[:25]
+    # confirm a spread over the generator families (first letter of the id), not the first 25 of one family
+    groups = {}
+    for i in bad:
+        groups.setdefault(i[:1], []).append(i)
+    todo = []
+    while len(todo) < 25 and any(groups.values()):
+        for g in sorted(groups):
+            if groups[g] and len(todo) < 25:
+                todo.append(groups[g].pop(0))
     rp = os.path.join(vlib.scratch(), "replay-%s-%s.ndjson" % (FAMILY, part))
     paths = {}
     with open(rp, "w") as f:
